@@ -1,4 +1,5 @@
 import Tfv.Model
+import Tfv.Generated
 /-!
 Line-protocol driver: one s-expression per line in, one canonical line out.
 It evaluates the same definitions the theorems in `Tfv/Props` are about.
@@ -7,7 +8,55 @@ open Tfv
 
 structure DState where
   lang : Lang := builtinDecls
+  aliases : List AliasDecl := []
+  opNames : List String := []
   deriving Inhabited
+
+def DState.plang (st : DState) : PLang := { types := st.lang, aliases := st.aliases }
+
+partial def showTerm : Term → String
+  | .var v => s!"(v {v})"
+  | .app o [] => s!"({o})"
+  | .app o args => "(" ++ toString o ++ " " ++ " ".intercalate (args.map showTerm) ++ ")"
+
+/-- variables renamed by first occurrence within the term -/
+partial def termVars : Term → List Nat → List Nat
+  | .var v, acc => if acc.contains v then acc else acc ++ [v]
+  | .app _ args, acc => args.foldl (fun acc t => termVars t acc) acc
+
+partial def showTermWith (names : List Nat) : Term → String
+  | .var v => s!"(v {(names.idxOf? v).getD 0})"
+  | .app o [] => s!"({o})"
+  | .app o args => "(" ++ toString o ++ " " ++ " ".intercalate (args.map (showTermWith names)) ++ ")"
+
+def showTermFirstOcc (t : Term) : String := showTermWith (termVars t []) t
+
+def showPErr : PErr → String
+  | .parseError _ => "ParseError"
+  | .bracketMismatch => "BracketMismatch"
+  | .emptyParse => "EmptyParse"
+  | .undefinedToken _ => "UndefinedTokenError"
+  | .missingInput _ => "MissingInputError"
+  | .typeParameter => "TypeParameterError"
+  | .typeAnnotation => "TypeAnnotationError"
+  | .application _ => "ApplicationError"
+  | .typing e => showErr e
+  | .internal site => "Internal(" ++ site ++ ")"
+
+partial def showPExpr : PExpr → String
+  | .src id => s!"(src {id})"
+  | .input k => s!"(in {k})"
+  | .op name => name
+  | .app f x => "(" ++ showPExpr f ++ " " ++ showPExpr x ++ ")"
+  | .ann e t => "(: " ++ showPExpr e ++ " " ++ showTerm t ++ ")"
+
+def parseAliasDecl : Sexp → Option AliasDecl
+  | .list [.atom name, ar, body] => do pure ⟨name, ← Sexp.nat? ar, ← Sexp.term? body⟩
+  | _ => none
+
+def atomStr : Sexp → Option String
+  | .atom s => some s
+  | _ => none
 
 def parseLangDecl : Sexp → Option OpDecl
   | .list [.atom name, .list vs, p] => do
@@ -107,7 +156,44 @@ def stepInfer (st : DState) (e : Sexp) : Option (DState × String) :=
     pure (st, runInfer L s args)
   | _ => none
 
+def stepParse (st : DState) (e : Sexp) : Option (DState × String) :=
+  match e with
+  | .list (.atom "aliases" :: ds) => do
+    let ds ← ds.mapM parseAliasDecl
+    pure ({ st with aliases := ds }, "ok")
+  | .list (.atom "opnames" :: ns) => do
+    let ns ← ns.mapM atomStr
+    pure ({ st with opNames := ns }, "ok")
+  | .list [.atom "tokenize", .atom mode, s] => do
+    let s ← Sexp.str? s
+    let specials := if mode == "expr" then Generated.exprSpecials else Generated.typeSpecials
+    let toks := tokenize specials Generated.blanks s
+    pure (st, toString toks.length ++ " " ++ " ".intercalate (toks.map (fun t => "(s" ++ String.join (t.toList.map (fun c => " " ++ toString c.toNat)) ++ ")")))
+  | .list [.atom "ttext", t] => do
+    let t ← Sexp.ty? t
+    let txt := typeText st.lang t
+    let same := tokenize Generated.typeSpecials Generated.blanks txt == typeToks st.lang t
+    pure (st, (if same then "T " else "F ") ++ "(s" ++ String.join (txt.toList.map (fun c => " " ++ toString c.toNat)) ++ ")")
+  | .list [.atom "ptype", s] => do
+    let s ← Sexp.str? s
+    let toks := tokenize Generated.typeSpecials Generated.blanks s
+    pure (st, match parseTypeToks st.plang toks with
+      | .ok (t, _) => "ok " ++ showTermFirstOcc t
+      | .error e => "E:" ++ showPErr e)
+  | .list [.atom "pexpr", n, s] => do
+    let n ← Sexp.nat? n
+    let s ← Sexp.str? s
+    let toks := tokenize Generated.exprSpecials Generated.blanks s
+    let inputs := (List.range n).map (fun k => PExpr.input (k + 1))
+    pure (st, match parseExprToks st.plang (freeBuilder st.opNames) inputs {} toks with
+      | .ok (fs, e) => "ok " ++ showPExpr e.erase ++ " |" ++ String.join (fs.anns.map (fun t => " " ++ showTermFirstOcc t))
+      | .error e => "E:" ++ showPErr e)
+  | _ => none
+
 def step (st : DState) (e : Sexp) : DState × String :=
+  match stepParse st e with
+  | some r => r
+  | none =>
   match stepBasic st e with
   | some r => r
   | none =>
